@@ -136,7 +136,10 @@ class CoreDriver:
             if code == "150":
                 st.active = True
             elif code in ("226", "200", "425", "451") and st.active and not (code == "200" and st.last_verb != "mlsd"):
-                st.active = False
+                # (a 451 may belong to another command sent while the transfer is still running)
+                busy = any(c.kind == "data" and c.session == s and not (c.srv.closing or c.srv.closed) for c in self.net.conns)
+                if not (code == "451" and busy):
+                    st.active = False
             if code == "227":
                 m = re.search(r"\((\d+),(\d+),(\d+),(\d+),(\d+),(\d+)\)", lines[-1])
                 if m:
